@@ -451,3 +451,67 @@ func ruleAssertionsKeyed(e *Engine, r *Reporter) {
 		r.Check(ok, "memory."+m+" assertions map key", e.pos(fn.Pos()), "key "+detail, "the assertions map is not indexed by a key built from both the store and the model id: "+detail)
 	}
 }
+
+// ruleCompositeKeyComplete: a function that handles the write path's composite tuple key
+// (the *LockKey struct) and reads at least two of its components must read all of them:
+// de-duplication string, lock ordering and the row-constructor IN list all have to agree on
+// what identifies a tuple, otherwise two distinct tuples collapse into one key.
+func ruleCompositeKeyComplete(e *Engine, r *Reporter) {
+	r.Rule("composite-key-complete", "every function that reads two or more components of the write path's tuple lock key reads all of them (de-duplication, lock order and the IN list agree on tuple identity)", 4)
+	for _, fn := range e.Fns {
+		if !sqlPkgs[pkgOf(fn)] {
+			continue
+		}
+		read := map[string]bool{}
+		var keyT *types.Struct
+		var keyName string
+		for _, b := range fn.Blocks {
+			for _, in := range b.Instrs {
+				var x ssa.Value
+				var idx int
+				isRead := false
+				switch f := in.(type) {
+				case *ssa.FieldAddr:
+					x, idx = f.X, f.Field
+					for _, rr := range *f.Referrers() {
+						if u, ok := rr.(*ssa.UnOp); ok && u.X == ssa.Value(f) {
+							isRead = true
+						}
+					}
+				case *ssa.Field:
+					x, idx = f.X, f.Field
+					isRead = true
+				default:
+					continue
+				}
+				t := x.Type()
+				if p, ok := t.Underlying().(*types.Pointer); ok {
+					t = p.Elem()
+				}
+				n, ok := t.(*types.Named)
+				if !ok || !strings.HasSuffix(n.Obj().Name(), "LockKey") {
+					continue
+				}
+				st, ok := n.Underlying().(*types.Struct)
+				if !ok {
+					continue
+				}
+				keyT, keyName = st, n.Obj().Name()
+				if isRead {
+					read[st.Field(idx).Name()] = true
+				}
+			}
+		}
+		if keyT == nil || len(read) < 2 {
+			continue
+		}
+		var missing []string
+		for i := 0; i < keyT.NumFields(); i++ {
+			if !read[keyT.Field(i).Name()] {
+				missing = append(missing, keyT.Field(i).Name())
+			}
+		}
+		r.Check(len(missing) == 0, fmt.Sprintf("%s | %s components", fname(fn), keyName), e.pos(fn.Pos()), fmt.Sprintf("reads all %d components", keyT.NumFields()),
+			fmt.Sprintf("handles the composite tuple key but ignores component(s) %v: tuples differing only there are treated as one (lost lock / lost existence check, so on_duplicate/on_missing is decided on the wrong row)", missing))
+	}
+}
